@@ -18,6 +18,9 @@ ensure_repo_on_path()
 
 SHRINK = ("# module %s\n\ndef function_name(argument_one, argument_two=None):\n    '''docstring'''\n"
           "    local_variable = argument_one + 1\n    return local_variable\n\n\nprint(function_name(41), %s)\n")
+# minifying the minified text once more gives something else again (the re-bound parameters swap their short names on the second pass)
+NONIDEM = ("# module %s\ndef is_ast_node(node, field):\n    if node and field == 1: return 0\n    if node and field == 2: return 1\n"
+           "    if node and field == 3: return 2\n    if node is None and field == 4: return field\n    return node\nprint(is_ast_node(1, %s))\n")
 GROW = "x%s='\t'"            # a raw TAB inside the literal: repr() needs two characters
 EQUAL = "x%s=1"
 INVALID = "def (:\n    pass # %s\n"
@@ -29,6 +32,8 @@ def content_for(cls, ident):
         return (SHRINK % (ident, ident)).encode()
     if cls == 'legacy':
         return b'# -*- coding: latin-1 -*-\n' + (SHRINK % (ident, ident)).replace("'''docstring'''", "'''caf\xe9 cr\xe8me'''").replace('print(', "print('\xe9t\xe9', ").encode('latin-1')
+    if cls == 'nonidem':
+        return (NONIDEM % (ident, ident)).encode()
     if cls == 'grows':
         return (GROW % ident).encode()
     if cls == 'equal':
@@ -91,6 +96,15 @@ class Layout(object):
             self.args = ['-']
         elif cfg['shape'] == 'stdin_and_file':
             self.args = ['-'] + named[:1]
+        tw = cfg.get('twice')
+        if tw == 'named':
+            # the first named file once more, spelled through its directory
+            first = named[0]
+            self.args.append(os.path.join(os.path.dirname(first), '.', os.path.basename(first)))
+        elif tw == 'dir+file':
+            self.args.append(self.paths[0])
+        elif tw == 'dir+dir':
+            self.args.append(os.path.join(root, 'd', ''))
 
     def materialise(self, cfg):
         shutil.rmtree(self.root, ignore_errors=True)
@@ -152,6 +166,7 @@ def run_main(argv, stdin_bytes=b'', unreadable=(), readonly=(), env_force=False,
     real_open = builtins.open
     unreadable = set(os.path.realpath(p) for p in unreadable)
     readonly = set(os.path.realpath(p) for p in readonly)
+    tool_reads = []
 
     def fake_open(file, mode='r', *a, **k):
         if isinstance(file, str):
@@ -159,9 +174,12 @@ def run_main(argv, stdin_bytes=b'', unreadable=(), readonly=(), env_force=False,
             if rp in unreadable and 'r' in mode:
                 if _events is not None:
                     _events.append((file, mode))       # the attempt counts as a visit: the injected fault precedes the audit event
+                tool_reads.append(file)
                 raise PermissionError(13, 'Permission denied', file)
             if rp in readonly and ('w' in mode or 'a' in mode or '+' in mode):
                 raise PermissionError(13, 'Permission denied', file)
+            if 'r' in mode and rp not in unreadable:
+                tool_reads.append(file)             # the tool's own reads, in order (the interpreter itself re-reads a file to print a traceback)
         return real_open(file, mode, *a, **k)
 
     old = (sys.argv, sys.stdout, sys.stdin, sys.stderr, os.environ.get('PYMINIFY_FORCE_BEST_EFFORT'))
@@ -213,6 +231,7 @@ def run_main(argv, stdin_bytes=b'', unreadable=(), readonly=(), env_force=False,
     res['stdout_text'] = ''.join(out.text)
     res['stderr'] = err.getvalue()[-300:]
     res['opens'] = evs
+    res['tool_reads'] = tool_reads
     return res
 
 
@@ -238,6 +257,11 @@ def run_config(job):
     if cfg['mode'] == 'in_place':
         argv.append('--in-place')
     elif cfg['mode'] == 'output':
+        if cfg.get('self_output') == 'direct':
+            outpath = lay.paths[0]
+        elif cfg.get('self_output') == 'symlink':
+            outpath = os.path.join(root, 'OUT.link')
+            os.symlink(lay.paths[0], outpath)
         argv += ['--output', outpath]
     unreadable = [lay.paths[i] for i in range(n) if cfg['class'][i] == 'unreadable']
     readonly = [lay.paths[i] for i in range(n) if cfg['class'][i] == 'readonly']
@@ -258,9 +282,12 @@ def run_config(job):
         if 'w' in mode or 'a' in mode or '+' in mode:
             opened_w.add(i)
         else:
-            if i not in opened_r:
-                order.append(i + 1)
             opened_r.add(i)
+    # visiting order = the tool's own reads, every one of them: a file the arguments reach twice must still be read once
+    for path in res['tool_reads']:
+        i = real.get(os.path.realpath(path))
+        if i is not None:
+            order.append(i + 1)
     if cfg['shape'] == 'stdin' and cfg['mode'] != 'in_place':
         order = [1]          # reading stdin stands for reading pseudo-file 1
     for i, p in enumerate(lay.paths):
@@ -296,6 +323,6 @@ def run_config(job):
     others_changed = False
     rec = {'id': job['id'], 'shape': cfg['shape'], 'mode': cfg['mode'], 'force': bool(cfg['force']), 'files': files,
            'exit': int(res['exit']), 'exit2': int(res['exit_script']), 'exc': res['exc'], 'outw': outw, 'sout': sout, 'order': order,
-           'listed': len([l for l in res['stdout_text'].split('\n') if l])}
+           'listed': len([l for l in res['stdout_text'].split('\n') if l]), 'self_output': bool(cfg.get('self_output'))}
     shutil.rmtree(root, ignore_errors=True)
     return rec
